@@ -66,6 +66,45 @@ func c13LoadAddExtra(v any, depth int, scalar bool) {
 	}
 }
 
+// c13LoadSubst are replacements of setting values by other values that are
+// beyond doubt valid for the schema versions that had the setting.  A
+// replacement is applied only where the key exists with a value of the same
+// type.  Keys with a "dns." prefix are looked up in dns and coredns.
+var c13LoadSubst = []map[string]any{{
+	"bind_host": "::", "dns.bind_host": "::1", "bind_port": 8080, "web_session_ttl": 1,
+	"dns.statistics_interval": 0, "dns.querylog_interval": 1, "rlimit_nofile": 0,
+	"dns.resolve_clients": false, "dns.safesearch_enabled": true, "dns.all_servers": true,
+	"debug_pprof": false, "verbose": false,
+}, {
+	"bind_host": "0.0.0.0", "dns.bind_host": "0.0.0.0", "bind_port": 80, "web_session_ttl": 8760,
+	"dns.statistics_interval": 90, "dns.querylog_interval": 90, "rlimit_nofile": 65536,
+	"dns.resolve_clients": true, "dns.safesearch_enabled": false, "dns.fastest_addr": true,
+	"dns.edns_client_subnet": true, "dns.querylog_enabled": false, "log_max_age": 30,
+}}
+
+func c13LoadSubstitute(tree map[string]any, subst map[string]any) (n int) {
+	set := func(m map[string]any, k string, v any) {
+		cur, ok := m[k]
+		if !ok || cur == nil || fmt.Sprintf("%T", cur) != fmt.Sprintf("%T", v) {
+			return
+		}
+		m[k] = v
+		n++
+	}
+	for k, v := range subst {
+		if sub, isDNS := strings.CutPrefix(k, "dns."); isDNS {
+			for _, sect := range []string{"dns", "coredns"} {
+				if m, ok := tree[sect].(map[string]any); ok {
+					set(m, sub, v)
+				}
+			}
+			continue
+		}
+		set(tree, k, v)
+	}
+	return n
+}
+
 func c13LoadDocs(rep *verifkit.Report) (docs []c13LoadDoc) {
 	root := filepath.Join("..", "configmigrate", "testdata", "TestMigrateConfig_Migrate")
 	ents, err := os.ReadDir(root)
@@ -95,6 +134,20 @@ func c13LoadDocs(rep *verifkit.Report) (docs []c13LoadDoc) {
 			name := "golden:" + n + "/" + f
 			docs = append(docs, c13LoadDoc{Name: name, Variant: "unchanged", Body: b})
 			rep.Event("golden_documents_loaded")
+			for vi, subst := range c13LoadSubst {
+				var tree map[string]any
+				if yaml.Unmarshal(b, &tree) != nil || tree == nil {
+					continue
+				}
+				if c13LoadSubstitute(tree, subst) == 0 {
+					continue
+				}
+				eb, merr := yaml.Marshal(tree)
+				if merr != nil {
+					continue
+				}
+				docs = append(docs, c13LoadDoc{Name: name, Variant: fmt.Sprintf("valid-values-%c", 'A'+vi), Body: eb})
+			}
 			for _, variant := range []string{"extra-keys-structured", "extra-keys-scalar"} {
 				var tree map[string]any
 				if yaml.Unmarshal(b, &tree) != nil || tree == nil {
